@@ -5,6 +5,7 @@ import (
 	"go/token"
 	"reflect"
 	"strings"
+	"sync"
 
 	"github.com/ipfs/go-cid"
 	"github.com/ipld/go-ipld-prime/datamodel"
@@ -413,8 +414,24 @@ func init() {
 // TODO: we should probably avoid re-spawning the same types if the TypeSystem
 // has them, and test that that works as expected
 
+// inferredSchemas remembers the schema inferred for each Go type, so that inferring
+// the same type again (in a later call, or twice within one struct) yields the same
+// schema type instead of registering its name in defaultTypeSystem a second time.
+// inferMu guards it and defaultTypeSystem: binding may be used from many goroutines.
+var (
+	inferMu         sync.Mutex
+	inferredSchemas = make(map[reflect.Type]schema.Type)
+)
+
 // inferSchema can build a schema from a Go type
 func inferSchema(typ reflect.Type, level int) schema.Type {
+	if level == 0 {
+		inferMu.Lock()
+		defer inferMu.Unlock()
+	}
+	if cached, ok := inferredSchemas[typ]; ok {
+		return cached
+	}
 	if level > maxRecursionLevel {
 		panic(fmt.Sprintf("inferSchema: refusing to recurse past %d levels", maxRecursionLevel))
 	}
@@ -454,6 +471,7 @@ func inferSchema(typ reflect.Type, level int) schema.Type {
 		}
 		typSchema := schema.SpawnStruct(name, fieldsSchema, nil)
 		defaultTypeSystem.Accumulate(typSchema)
+		inferredSchemas[typ] = typSchema
 		return typSchema
 	case reflect.Slice:
 		if typ.Elem().Kind() == reflect.Uint8 {
@@ -471,7 +489,15 @@ func inferSchema(typ reflect.Type, level int) schema.Type {
 			name = "List_" + etypSchema.Name()
 		}
 		typSchema := schema.SpawnList(name, etypSchema.Name(), nullable)
+		if typ.Name() == "" {
+			// an unnamed slice type is named after its element: several Go types may share the name
+			if existing := defaultTypeSystem.TypeByName(name); existing != nil {
+				inferredSchemas[typ] = existing
+				return existing
+			}
+		}
 		defaultTypeSystem.Accumulate(typSchema)
+		inferredSchemas[typ] = typSchema
 		return typSchema
 	case reflect.Interface:
 		// these types must match exactly since we need symmetry of being able to
